@@ -67,7 +67,9 @@ def blurring_rule(ctx, p, K):
     yy, xx = y + y1, x + x1
     ctx.ob(rule, f.key + ":target", st.idx == (yy, xx) and isinstance(st.value, Const) and st.value.v is False, where=f, node=st.node, construct=repr(st)[:140], message="the pixel at (y + y1, x + x1) must be unmasked (set False)")
     gs = real_guards(st.guards)
-    b = bounds_set(gs, yy, xx, [H], [W])
+    # the in-frame test may guard the store directly, or be the precondition whose failure raises (`if not in_frame: raise`): either way the store runs only in-frame
+    gs_all = [c for g in st.guards for c in g.flat_and()]
+    b = bounds_set(gs_all, yy, xx, [H], [W])
     ctx.ob(rule, f.key + ":in-frame", b == {"y>=0", "x>=0", "y<H", "x<W"}, where=f, node=st.node, construct="; ".join(map(repr, gs))[:300],
            message=f"the footprint pixel must be tested against the array bounds of its own axis on both sides (found {sorted(b)})")
     src = any(c.kind == "not" and c.args[0].kind == "truth" and c.args[0].args[0] == E_("M", y, x) for c in gs)
